@@ -55,6 +55,7 @@ class Contract:
         self.l2 = kw.pop("l2", None)
         self.any_only_if = kw.pop("any_only_if", None)   # C05 inventory: clause that must hold wherever the body mentions the literal typing.Any
         self.carve = kw.pop("carve", {})          # clause-key prefix -> known-finding key: obligations that are the failure set of a recorded finding
+        self.call_guards = kw.pop("call_guards", {})  # callee short name -> {label: clause over this function's state}: obligation at every call of that callee in this body
         self.hints = kw.pop("hints", {})          # label -> clause: proved at the return point, then available to the ensures (lemmas)
         self.assumes = kw.pop("assumes", {})      # label -> clause assumed on entry (trusted; listed in the evidence)
         self.hide = kw.pop("hide", [])            # ensures labels not revealed to callers (opaque)
